@@ -11,18 +11,15 @@ Import ListNotations.
 Definition tri_tol_num : Z := 2.
 Definition tri_tol_den : Z := 1000000000000000.
 
-Lemma tri_tables_check :
-  forallb (tri_table_ok tri_scale tri_branches tri_tol_num tri_tol_den) (seq 1 10) = true.
-Proof. vm_compute. reflexivity. Qed.
+Lemma tri_tables_check : tri_tables_ok tri_scale tri_branches tri_tol_num tri_tol_den 10 = true.
+Proof. vm_cast_no_check (@eq_refl bool true). Qed.
 
 Local Open Scope R_scope.
 Theorem tri_tables_exact : forall d, (1 <= d <= 10)%nat ->
   exists pts ws, select_branch tri_branches (Z.of_nat d) = Some (pts, ws) /\
     TriQuadExact d (2 / 1000000000000000) (map Q2R2 pts) (map Q2R ws).
 Proof.
-  intros d Hd. pose proof tri_tables_check as H. rewrite forallb_forall in H.
-  assert (Hin : In d (seq 1 10)) by (apply in_seq; lia).
-  specialize (H _ Hin). apply tri_table_ok_sound in H; [exact H | vm_compute; discriminate | reflexivity].
+  intros d Hd. apply (tri_tables_ok_sound tri_scale tri_branches tri_tol_num tri_tol_den 10); [vm_compute; discriminate | reflexivity | exact tri_tables_check | exact Hd].
 Qed.
 
 (* degrees above the last branch are refused, degrees below 1 get the one-point rule *)
